@@ -74,10 +74,11 @@ def rpms_roundtrip(sym, history):
             expected.setdefault(variant, {}).setdefault(arch, {}).setdefault(key, {})[RPM_CANON[ri]] = {
                 "sigkey": sigkey.lower() if sigkey is not None else None, "path": path, "category": category}
         sym.check("built-mapping-follows-the-calls", m.rpms == expected)
-        before = clone(m.rpms)
-        text = m.dumps()
     except (ValueError, TypeError):
         return
+    # every add call was accepted: the manifest must be written (a refusal here escapes the harness and is reported)
+    before = clone(m.rpms)
+    text = m.dumps()
     sym.cover("written")
     if len(history) % 2:
         histories.warm("rpms")
@@ -116,10 +117,11 @@ def modules_roundtrip(sym, history, share=False):
         sym.check("built-mapping-follows-the-calls", m.modules == expected)
         if share:
             sym.check("callers-list-untouched", len(shared) == 2)
-        before = clone(m.modules)
-        text = m.dumps()
     except (ValueError, TypeError):
         return
+    # every add call was accepted: the manifest must be written (a refusal here escapes the harness and is reported)
+    before = clone(m.modules)
+    text = m.dumps()
     sym.cover("written")
     if len(history) % 2:
         histories.warm("modules")
@@ -157,10 +159,11 @@ def extra_roundtrip(sym, history, share=False):
             for arch in sorted(expected[variant]):
                 m.dump_for_tree(Sink(), variant, arch, sym.str("base_%s_%s" % (variant.replace("-", "_"), arch), 3))
         sym.check("mapping-untouched-by-the-per-tree-views", m.extra_files == expected)
-        before = clone(m.extra_files)
-        text = m.dumps()
     except (ValueError, TypeError):
         return
+    # every add call was accepted: the manifest must be written (a refusal here escapes the harness and is reported)
+    before = clone(m.extra_files)
+    text = m.dumps()
     sym.cover("written")
     if len(history) % 2:
         histories.warm("extra_files")
